@@ -257,6 +257,15 @@ func areaInstance(r *Rng, n int, dir string) (*AreaOut, error) {
 				return txn.Put(dbi, byteKeyPool[r.Intn(4)], []byte("short"), 0)
 			})
 		}
+		if native && r.Chance(12) { // leftovers of an earlier shadow-mode period in a native-schema LMDB
+			_ = env.Update(func(txn *lmdb.Txn) error {
+				dbi, err := txn.OpenDBI(shadowPrefix+"old", lmdb.Create)
+				if err != nil {
+					return err
+				}
+				return txn.Put(dbi, []byte("k"), mkStored(clock-9000, 1, 0, 0, []byte("left")), 0)
+			})
+		}
 		if !native && r.Chance(10) { // an application DBI that has no shadow yet
 			_ = applyApp(env, false, clock, []appOp{{DBI: "late", Key: []byte("k"), Val: []byte("v")}})
 		}
@@ -267,7 +276,14 @@ func areaInstance(r *Rng, n int, dir string) (*AreaOut, error) {
 		}
 		clock += 1000
 		setClock(clock)
-		cfg := fmt.Sprintf("(mkICfg %s %s %s false)", cBool(native), cBool(hack), cBool(pad))
+		cancelled := r.Chance(8)
+		runCtx := ctx
+		if cancelled {
+			c2, cancelNow := context.WithCancel(ctx)
+			cancelNow()
+			runCtx = c2
+		}
+		cfg := fmt.Sprintf("(mkICfg %s %s %s false %s)", cBool(native), cBool(hack), cBool(pad), cBool(cancelled))
 
 		if r.Chance(25) {
 			// ---------------- SendOnce ----------------
@@ -276,7 +292,7 @@ func areaInstance(r *Rng, n int, dir string) (*AreaOut, error) {
 			var pan any
 			func() {
 				defer func() { pan = recover() }()
-				id, err := sy.SendOnce(ctx, env)
+				id, err := sy.SendOnce(runCtx, env)
 				retID, sendErr = uint64(id), err
 			}()
 			after, last2, _ := dumpEnv(env)
@@ -411,7 +427,7 @@ func areaInstance(r *Rng, n int, dir string) (*AreaOut, error) {
 		var pan any
 		func() {
 			defer func() { pan = recover() }()
-			id, l, err := sy.LoadOnce(ctx, env, "b", upd, header.TxnID(lastSynced))
+			id, l, err := sy.LoadOnce(runCtx, env, "b", upd, header.TxnID(lastSynced))
 			retID, lc, loadErr = uint64(id), l, err
 		}()
 		after, last2, _ := dumpEnv(env)
@@ -455,6 +471,12 @@ func areaInstance(r *Rng, n int, dir string) (*AreaOut, error) {
 				if strings.HasPrefix(d.Name, "_sync_meta") {
 					out.Oracle = append(out.Oracle, OracleFailure{"C18", "private-dbi", "a private DBI from the snapshot was created locally", in})
 				}
+			}
+			// C18/C02: the merged state is, per key, the last-writer-wins join of what was stored and what came in
+			// (documented meaning per format version: v1 empty value = deletion, from v2 the deleted flag)
+			for _, f := range mergeResultOracle(native || !lc, native, fmtv, before, after, seenDBIs) {
+				f.Input = in
+				out.Oracle = append(out.Oracle, f)
 			}
 			// C10: merging the same snapshot again, with nothing changed locally, commits nothing
 			// (DBIs under the dupsort hack excepted) and reports no local change
@@ -538,6 +560,80 @@ func dumpOracle(native bool, envAfter []dbiDump, up []snapDBI) []OracleFailure {
 			e := u.Entries[i]
 			if !ok || !bytes.Equal(e.Key, p.K) || !bytes.Equal(e.Value, lv.Val) || e.TimestampNano != lv.TS || (e.Flags&1 == 1) != lv.Del || e.Flags > 1 {
 				fs = append(fs, OracleFailure{"C06", "entry", fmt.Sprintf("DBI %s key %x: stored %+v, snapshot has %s", d.Name, p.K, lv, kvCoq(e)), nil})
+				break
+			}
+		}
+	}
+	return fs
+}
+
+func lwwWins(n, o lver) bool {
+	if n.TS != o.TS {
+		return n.TS > o.TS
+	}
+	if c := bytes.Compare(n.Val, o.Val); c != 0 {
+		return c < 0
+	}
+	return n.Del && !o.Del
+}
+
+// mergeResultOracle: per DBI and key of the snapshot, stored-after == LWW join(stored-before, incoming)
+func mergeResultOracle(applicable, native bool, fmtv uint32, before, after []dbiDump, sds []snapDBI) []OracleFailure {
+	var fs []OracleFailure
+	if !applicable {
+		return nil // shadow mode with local changes: the capture step rewrites the baseline first (C11)
+	}
+	bm := map[string]dbiDump{}
+	am := map[string]dbiDump{}
+	for _, d := range before {
+		bm[d.Name] = d
+	}
+	for _, d := range after {
+		am[d.Name] = d
+	}
+	get := func(d dbiDump, k []byte) []byte {
+		for _, p := range d.Data {
+			if bytes.Equal(p.K, k) {
+				return p.V
+			}
+		}
+		return nil
+	}
+	for _, sd := range sds {
+		if strings.HasPrefix(sd.Name, "_sync") {
+			continue
+		}
+		target := sd.Name
+		if !native {
+			target = shadowPrefix + sd.Name
+		}
+		seenKey := map[string]bool{}
+		dupKeys := false
+		for _, e := range sd.Entries {
+			if seenKey[string(e.Key)] {
+				dupKeys = true
+			}
+			seenKey[string(e.Key)] = true
+		}
+		if dupKeys {
+			continue
+		}
+		for _, e := range sd.Entries {
+			in := lver{TS: e.TimestampNano, Del: e.Flags&1 == 1, Val: e.Value}
+			if fmtv < 2 && len(e.Value) == 0 {
+				in.Del = true
+			}
+			if in.Del {
+				in.Val = nil
+			}
+			old, hadOld := logical(get(bm[target], e.Key))
+			want := in
+			if hadOld && !lwwWins(in, old) {
+				want = old
+			}
+			got, ok := logical(get(am[target], e.Key))
+			if !ok || !got.eq(want) {
+				fs = append(fs, OracleFailure{Property: "C18", Clause: "merge-result", Desc: fmt.Sprintf("format %d, DBI %s key %x: stored %+v (present=%v), incoming %+v, result %+v (present=%v), last-writer-wins gives %+v", fmtv, sd.Name, e.Key, old, hadOld, in, got, ok, want)})
 				break
 			}
 		}
